@@ -266,3 +266,48 @@ Example C16_ex_T7 :
   | _, _ => false
   end = true.
 Proof. vm_compute. repeat split. Qed.
+
+(** * Newton inside one cell: local QUADRATIC convergence on genuinely curved (bilinear, non-affine) cells
+    (Proofs/NewtonCellProofs.v; over Q, closed under the global context).
+
+    Inside a cell the two coordinate fields are exactly bilinear, [bval A x y = c0 + c1 x + c2 y + c3 x y].
+    [bilin_step]'s update IS the Newton step of that cell map ([C16_step_is_newton_cell]); its error satisfies an
+    exact identity whose only source is the cross term c3, hence the quadratic bound with an explicit constant
+    ([C16_newton_quadratic]); and from any start within a ball around the root that lies in the cell and satisfies
+    kappa * e0 <= 1 (kappa = Sb * max|c3| / dmin from uniform bounds on the cell) all iterates stay in the cell and
+    the error after n steps is at most (kappa e0)^(2^n - 1) e0 ([C16_newton_cell_convergence]).
+    Still open (stated, not proved): iterates that leave the cell (the code clips the index and continues with the
+    neighbour's map), the start at the array centre, whether 7 iterations suffice on a given grid, float rounding. *)
+From Ladim Require Import Proofs.NewtonCellProofs.
+Theorem C16_step_is_newton_cell : forall (f g : Q) (F G : arr2) (tol x y x' y' : Q) (kf kg : quad),
+  let i := cell_index (nrow F) x in
+  let j := cell_index (ncol F) y in
+  corners F i j = Some kf -> corners G i j = Some kg ->
+  bilin_step f g F G tol x y = StNext x' y' ->
+  ~ ndet (cell_of_quad kf) (cell_of_quad kg) (x - inject_Z i) (y - inject_Z j) == 0 /\
+  x' - inject_Z i == newton_x (cell_of_quad kf) (cell_of_quad kg) f g (x - inject_Z i) (y - inject_Z j) /\
+  y' - inject_Z j == newton_y (cell_of_quad kf) (cell_of_quad kg) f g (x - inject_Z i) (y - inject_Z j).
+Proof. exact bilin_step_is_newton_cell. Qed.
+Print Assumptions C16_step_is_newton_cell.
+Theorem C16_newton_quadratic : forall (A B : bcell) (f g x y xs ys : Q),
+  bval A xs ys == f -> bval B xs ys == g -> ~ ndet A B x y == 0 ->
+  err xs ys (newton_x A B f g x y) (newton_y A B f g x y) <=
+  csum A B x y * curv A B / Qabs.Qabs (ndet A B x y) * (err xs ys x y * err xs ys x y).
+Proof. exact newton_quadratic_sharp. Qed.
+Print Assumptions C16_newton_quadratic.
+Theorem C16_newton_cell_convergence : forall (A B : bcell) (f g dmin Sb xs ys x0 y0 : Q),
+  cell_ok A B dmin Sb -> 0 < dmin -> bval A xs ys == f -> bval B xs ys == g ->
+  let e0 := err xs ys x0 y0 in
+  0 <= xs - e0 -> xs + e0 <= 1 -> 0 <= ys - e0 -> ys + e0 <= 1 -> kappa A B dmin Sb * e0 <= 1 ->
+  forall n : nat,
+  err_it A B f g xs ys x0 y0 n <= e0 /\
+  (in01 (fst (newton_it A B f g n x0 y0)) /\ in01 (snd (newton_it A B f g n x0 y0))) /\
+  err_it A B f g xs ys x0 y0 n <= qpow (kappa A B dmin Sb * e0) (2 ^ n - 1) * e0 /\
+  err_it A B f g xs ys x0 y0 n <= qpow (kappa A B dmin Sb * e0) n * e0.
+Proof. exact newton_cell_convergence_ball. Qed.
+Print Assumptions C16_newton_cell_convergence.
+(** non-vacuity: a concrete curved cell; the model's bilin_inv takes two steps and stops by tolerance at the error the theorem allows *)
+Example C16_newton_ex :
+  bilin_inv exf exg exF exG default_maxiter default_tol = BDone (2590594681 # 5181179840) (1295300549 # 5181179840) true /\
+  err (1 # 2) (1 # 4) (2590594681 # 5181179840) (1295300549 # 5181179840) == 5589 # 5181179840.
+Proof. exact ex_model_inv. Qed.
